@@ -567,7 +567,7 @@ func (e *Engine) applyModifies(s *State, ct *Contract, ctx *SpecCtx, resultPhase
 			}
 			obj := e.eval(s, ctx, cl.Expr)
 			st := deref(obj.T)
-			path := m[i:]
+			path := "." + aliasField(st, m[i+1:])
 			ft := fieldTypeByPath(st, path)
 			if ft == nil {
 				e.unsupportedf("modifies %s: no such field", m)
@@ -594,6 +594,7 @@ func fieldTypeByPath(t types.Type, path string) types.Type {
 		if !ok {
 			return nil
 		}
+		name = aliasField(cur, name)
 		found := false
 		for i := 0; i < st.NumFields(); i++ {
 			if st.Field(i).Name() == name {
